@@ -109,5 +109,5 @@ def build(a):
         cfe = None if cfe == 'none' else (True if cfe == 'Filter' else U.CATCH[cfe])
         return ds.prefetch(a['w'], a['bs'], catch_filter_exception=cfe)
     if op == 'group':
-        return ds.groupby(U.keyfn(a['g']))[a['sel']]
+        return ds.groupby(U.keyfn(a['g']))[U.group_key(a['g'], a['sel'])]
     raise ValueError(op)
